@@ -155,6 +155,17 @@ func corpus() []tarcase.FSCase {
 		tarcase.FSCase{Name: "F2-link-before-target", Backend: "tarfs", Ops: []tarcase.Op{d("bin", 0o755),
 			{Path: "bin/z", Kind: "reg", Via: "hdr", Mode: 0o755, Sec: t0, Size: 5, CSeed: 7, Pkg: "p"},
 			{Path: "bin/a", Kind: "link", Via: "hdr", Target: "bin/z", Sec: t0, Pkg: "p"}}},
+		// finding C06-F5: a recorded hard link that NAMES a symlink. tarfs link() resolves the
+		// name (getNode follows a final symlink), so the new name shares the node of the file the
+		// symlink points to, while the recorded header keeps the symlink's path as Linkname
+		tarcase.FSCase{Name: "F5-link-names-symlink-same-dir", Backend: "tarfs", Ops: []tarcase.Op{d("bin", 0o755),
+			{Path: "bin/busybox", Kind: "reg", Via: "hdr", Mode: 0o755, Sec: t0, Size: 9, CSeed: 11, Pkg: "p"},
+			{Path: "bin/s", Kind: "sym", Via: "hdr", Target: "busybox", Sec: t0, Pkg: "p"},
+			{Path: "bin/t", Kind: "link", Via: "hdr", Target: "bin/s", Sec: t0, Pkg: "p"}}},
+		tarcase.FSCase{Name: "F5-link-names-symlink-other-dir", Backend: "tarfs", Ops: []tarcase.Op{d("bin", 0o755), d("sbin", 0o755),
+			{Path: "bin/busybox", Kind: "reg", Via: "hdr", Mode: 0o755, Sec: t0, Size: 9, CSeed: 11, Pkg: "p"},
+			{Path: "bin/s", Kind: "sym", Via: "hdr", Target: "busybox", Sec: t0, Pkg: "p"},
+			{Path: "sbin/t", Kind: "link", Via: "hdr", Target: "bin/s", Sec: t0, Pkg: "p"}}},
 	)
 	return cs
 }
